@@ -5,6 +5,7 @@ import (
 	"encoding/json"
 	"fmt"
 	"math/rand"
+	"os"
 	"sort"
 	"strconv"
 	"strings"
@@ -187,9 +188,10 @@ func podDigest(p *corev1.Pod) string {
 		}
 	}
 	ct := p.CreationTimestamp
-	return fmt.Sprintf("%s|%s|%s|%s|%s|%s|%s|%s|%s|%s|%s", p.Name, owner, tsec(&ct), orDash(p.Labels[podtaskexecutor.LabelKeyTaskRetryIndex]),
+	reason, _ := podtaskexecutor.NewPodTask(p, nil).GetReasonMessage()
+	return fmt.Sprintf("%s|%s|%s|%s|%s|%s|%s|%s|%s|%s|%s|%s", p.Name, owner, tsec(&ct), orDash(p.Labels[podtaskexecutor.LabelKeyTaskRetryIndex]),
 		orDash(p.Labels[podtaskexecutor.LabelKeyTaskParallelIndexHash]), tsec(p.DeletionTimestamp), orDash(string(p.Status.Phase)),
-		tsec(p.Status.StartTime), st, fi, oom)
+		tsec(p.Status.StartTime), st, fi, oom, orDash(reason))
 }
 
 func (w *jobctlWorld) state() string {
@@ -246,7 +248,11 @@ func (w *jobctlWorld) work() {
 		if o, ok := w.ctx.Sim().Jobs().CacheGet(&execution.Job{ObjectMeta: metav1.ObjectMeta{Namespace: "ns", Name: "job"}}); ok {
 			w.cachedJob = o.(*execution.Job).DeepCopy()
 		}
-		w.api.Fault = func(c sim.Call) string {
+		// the pod deletes of one sync are issued concurrently (ConcurrentTasks): all deletes of
+		// one contiguous batch share one fault slot, so that the outcome does not depend on
+		// goroutine scheduling
+		inBatch, batchFault := false, ""
+		pop := func() string {
 			if len(w.faults) == 0 {
 				return ""
 			}
@@ -254,13 +260,42 @@ func (w *jobctlWorld) work() {
 			w.faults = w.faults[1:]
 			return f
 		}
+		w.api.Fault = func(c sim.Call) string {
+			if c.Verb == "delete" && c.Resource == "pods" {
+				if !inBatch {
+					inBatch, batchFault = true, pop()
+				}
+				return batchFault
+			}
+			inBatch = false
+			return pop()
+		}
+		podEv0 := len(w.api.Pending["pods"])
 		out := Guard(func() string { w.rc.VerifStep(context.Background()); return "" })
+		w.api.SortDeleteRuns("pods", podEv0)
 		w.api.Fault = nil
 		res = "ok"
 		if out == "panic" {
 			res = "panic"
 		} else if w.q.NumRequeues(key) > 0 {
 			res = "err"
+		}
+	}
+	if os.Getenv("JC_DEBUG") != "" && w.cachedJob != nil && res != "idle" {
+		if o, ok := w.ctx.Sim().Jobs().CacheGet(&execution.Job{ObjectMeta: metav1.ObjectMeta{Namespace: "ns", Name: "job"}}); ok {
+			a, _ := json.Marshal(w.cachedJob)
+			b, _ := json.Marshal(o.(*execution.Job))
+			if string(a) != string(b) {
+				k := 0
+				for k < len(a) && k < len(b) && a[k] == b[k] {
+					k++
+				}
+				lo := k - 100
+				if lo < 0 {
+					lo = 0
+				}
+				fmt.Fprintf(os.Stderr, "DEBUG cache object mutated in place during sync @%d\n before=%s\n after =%s\n", k, a[lo:min(len(a), k+200)], b[lo:min(len(b), k+200)])
+			}
 		}
 	}
 	w.c.Emit("jc.work", fmt.Sprintf("%s calls=%s %s", res, jcCallsStr(w.api.Calls), w.state()))
@@ -339,6 +374,23 @@ func (w *jobctlWorld) ownedPods() []*corev1.Pod {
 // monitorCall judges one controller call at the instant it is applied.
 func (w *jobctlWorld) monitorCall(c sim.Call) {
 	j := w.apiJob()
+	if os.Getenv("JC_DEBUG") != "" && c.Verb == "update" && c.Resource == "jobs" && c.Subresource == "status" && j != nil && w.cachedJob != nil {
+		j := w.cachedJob
+		a, _ := json.Marshal(j.Status)
+		b, _ := json.Marshal(c.Obj.(*execution.Job).Status)
+		if jobDigest(j) == jobDigest(func() *execution.Job { x := j.DeepCopy(); x.Status = c.Obj.(*execution.Job).Status; return x }()) {
+			eq, _ := jobcontroller.IsJobStatusEqual(j, c.Obj.(*execution.Job))
+			k := 0
+			for k < len(a) && k < len(b) && a[k] == b[k] {
+				k++
+			}
+			lo := k - 80
+			if lo < 0 {
+				lo = 0
+			}
+			fmt.Fprintf(os.Stderr, "DEBUG status update with equal digest: IsJobStatusEqual=%v firstdiff@%d\n old=%s\n new=%s\n", eq, k, a[lo:min(len(a), k+120)], b[lo:min(len(b), k+120)])
+		}
+	}
 	_, name, _ := strings.Cut(c.Key, "/")
 	switch {
 	case c.Verb == "create" && c.Resource == "pods" && (c.Result == "ok" || c.Result == "exists"):
@@ -635,6 +687,26 @@ func (w *jobctlWorld) monitorResult(j *execution.Job) {
 		w.c.Violate("C10", "failed-sound", "Job Failed (AllSuccessful) but no index used all its attempts without success")
 	case res == execution.JobResultFailed && strategy == execution.AnySuccessful && nExhausted < n:
 		w.c.Violate("C10", "failed-sound", "Job Failed (AnySuccessful) but only %d/%d indexes are exhausted", nExhausted, n)
+	}
+}
+
+func init() {
+	if os.Getenv("JC_DEBUG") != "" {
+		sim.DebugNormalize = func(in, out runtime.Object) {
+			a, _ := json.Marshal(in)
+			b, _ := json.Marshal(out)
+			if string(a) != string(b) {
+				k := 0
+				for k < len(a) && k < len(b) && a[k] == b[k] {
+					k++
+				}
+				lo := k - 100
+				if lo < 0 {
+					lo = 0
+				}
+				fmt.Fprintf(os.Stderr, "DEBUG normalize changes bytes @%d\n in =%s\n out=%s\n", k, a[lo:min(len(a), k+150)], b[lo:min(len(b), k+150)])
+			}
+		}
 	}
 }
 
@@ -951,7 +1023,9 @@ func (w *jobctlWorld) settle(rounds int) {
 		if round >= 1 {
 			// periodic resync of the informers (10 min in production)
 			w.ctx.Sim().Jobs().Resync()
+			w.ctx.Sim().Jobs().Flush()
 			w.ctx.Sim().Pods().Resync()
+			w.ctx.Sim().Pods().Flush()
 			w.c.Emit("jc.resync", w.state())
 		}
 		if round >= 3 {
